@@ -1,6 +1,17 @@
 package main
 
-// special.go: lemmas and non-WP obligations (tables, codec type obligations).
+// special.go: lemmas (spec-level facts about package-level tables) and
+// generated obligations that are not weakest preconditions of a body:
+// "every registered RPC method has a policy entry" (C07), codec type obligations (C08).
+
+import (
+	"fmt"
+	"go/ast"
+	"go/token"
+	"go/types"
+	"sort"
+	"strings"
+)
 
 type specialItem struct {
 	vc *VC
@@ -13,9 +24,193 @@ func (p *Program) specialObligations(prop string) ([]specialItem, []*FuncReport)
 	li, lr := p.lemmaObligations(prop)
 	items = append(items, li...)
 	reps = append(reps, lr...)
+	di, dr := p.directiveObligations(prop)
+	items = append(items, di...)
+	reps = append(reps, dr...)
 	return items, reps
 }
 
-func (p *Program) lemmaObligations(prop string) ([]specialItem, []*FuncReport) {
-	return nil, nil
+func hasProp(props []string, id string) bool {
+	for _, p := range props {
+		if p == id {
+			return true
+		}
+	}
+	return false
+}
+
+// newSpecExec: an executor with an empty state, for evaluating spec expressions over package-level data.
+func (p *Program) newSpecExec(pkgPath, name string, bv bool) (*Exec, *State) {
+	vc := newVC(bv)
+	pk := p.byPath[pkgPath]
+	x := &Exec{prog: p, vc: vc, pkg: pk, fname: name, counts: map[string]int{}, boxed: map[types.Object]bool{}}
+	st := &State{pc: "true", vars: map[types.Object]Val{}, heap: map[string]Val{}}
+	x.old = st.clone()
+	return x, st
+}
+
+func (p *Program) lemmaObligations(prop string) (items []specialItem, reps []*FuncReport) {
+	for _, l := range p.specs.Lemmas {
+		if l.Axiom || !hasProp(l.Props, prop) {
+			continue
+		}
+		pk := p.byPath[l.PkgPath]
+		name := pk.Name + ".lemma." + l.Name
+		rep := &FuncReport{Name: name, Key: l.PkgPath + ".lemma." + l.Name, Kind: "lemma", File: strings.TrimPrefix(l.File, p.repo+"/"), Line: l.Line, Mode: "mathematical integers"}
+		func() {
+			defer func() {
+				if r := recover(); r != nil {
+					if u, ok := r.(unsupportedErr); ok {
+						rep.Undecided = u.msg
+						return
+					}
+					panic(r)
+				}
+			}()
+			x, st := p.newSpecExec(l.PkgPath, name, l.Opts["bv"])
+			if x.vc.bv {
+				rep.Mode = "64-bit bit-vectors"
+			}
+			env := x.specEnv(st, st, nil, l.PkgPath)
+			conj := p.expandConj(l.Expr, 0)
+			for j, cj := range conj {
+				g := env.boolean(cj)
+				on := name + "#lemma"
+				if len(conj) > 1 {
+					on += fmt.Sprintf(".%d", j+1)
+				}
+				o := &Obl{Name: on, Class: "lemma", PC: st.pc, Goal: g, Desc: exprText(cj), Func: name, Pos: token.Position{Filename: l.File, Line: l.Line}}
+				x.vc.addObl(o)
+				items = append(items, specialItem{x.vc, o})
+				rep.NObl++
+			}
+			for n := range x.vc.notes {
+				rep.Dropped = append(rep.Dropped, n)
+			}
+			delete(p.tmpInit, x)
+			delete(p.tmpGlobals, x)
+		}()
+		if rep.Undecided != "" {
+			fmt.Printf("UNDECIDED property=%s lemma=%s reason=%s\n", prop, name, rep.Undecided)
+		}
+		reps = append(reps, rep)
+	}
+	return
+}
+
+func (p *Program) directiveObligations(prop string) (items []specialItem, reps []*FuncReport) {
+	for _, d := range p.specs.Directives {
+		if !hasProp(d.Props, prop) {
+			continue
+		}
+		switch d.Kind {
+		case "rpc_methods_in_policy":
+			it, rp := p.rpcMethodsInPolicy(d)
+			items = append(items, it...)
+			reps = append(reps, rp)
+		case "codec":
+			it, rp := p.codecObligations(d)
+			items = append(items, it...)
+			reps = append(reps, rp)
+		default:
+			fmt.Printf("UNDECIDED property=%s directive=%s reason=unknown directive\n", prop, d.Kind)
+		}
+	}
+	return
+}
+
+// rpcMethodsInPolicy: directive rpc_methods_in_policy <registerFunc> <policyVar>
+// Enumerates (go/types) every exported method of every type registered with RegisterName in
+// <registerFunc> and generates one obligation per method: the policy table has an entry for
+// "<Service>.<Method>", where <Service> is the type name without the RPCAPI suffix
+// (the naming convention RPCServiceID implements).
+func (p *Program) rpcMethodsInPolicy(d *Directive) (items []specialItem, rep *FuncReport) {
+	pk := p.byPath[d.PkgPath]
+	args := strings.Fields(d.Args)
+	name := pk.Name + ".directive.rpc_methods_in_policy"
+	rep = &FuncReport{Name: name, Key: d.PkgPath + ".directive.rpc_methods_in_policy", Kind: "directive", File: strings.TrimPrefix(d.File, p.repo+"/"), Line: d.Line, Mode: "finite enumeration (complete)"}
+	if len(args) != 2 {
+		rep.Undecided = "usage: directive rpc_methods_in_policy <func> <policy var>"
+		return
+	}
+	var decl *ast.FuncDecl
+	for fn, fd := range p.decls {
+		if p.declPkg[fn] == pk && fn.Name() == args[0] {
+			decl = fd
+		}
+	}
+	if decl == nil {
+		rep.Undecided = "function " + args[0] + " not found"
+		return
+	}
+	var methods []string
+	seen := map[string]bool{}
+	ast.Inspect(decl, func(n ast.Node) bool {
+		call, ok := n.(*ast.CallExpr)
+		if !ok {
+			return true
+		}
+		sel, ok := call.Fun.(*ast.SelectorExpr)
+		if !ok || sel.Sel.Name != "RegisterName" || len(call.Args) != 2 {
+			return true
+		}
+		t := pk.TypesInfo.TypeOf(call.Args[1])
+		pt, ok := t.(*types.Pointer)
+		if !ok {
+			return true
+		}
+		nt, ok := pt.Elem().(*types.Named)
+		if !ok {
+			return true
+		}
+		svc := strings.TrimSuffix(nt.Obj().Name(), "RPCAPI")
+		ms := types.NewMethodSet(t)
+		for i := 0; i < ms.Len(); i++ {
+			m := ms.At(i).Obj()
+			if !m.Exported() {
+				continue
+			}
+			k := svc + "." + m.Name()
+			if !seen[k] {
+				seen[k] = true
+				methods = append(methods, k)
+			}
+		}
+		return true
+	})
+	sort.Strings(methods)
+	if len(methods) == 0 {
+		rep.Undecided = "no RegisterName calls found in " + args[0]
+		return
+	}
+	defer func() {
+		if r := recover(); r != nil {
+			if u, ok := r.(unsupportedErr); ok {
+				rep.Undecided = u.msg
+				items = nil
+				return
+			}
+			panic(r)
+		}
+	}()
+	x, st := p.newSpecExec(d.PkgPath, name, false)
+	env := x.specEnv(st, st, nil, d.PkgPath)
+	for _, m := range methods {
+		e, err := parseSpecExpr(fmt.Sprintf("haskey(%s, %q)", args[1], m))
+		if err != nil {
+			panic(unsupported(err.Error()))
+		}
+		o := &Obl{Name: fmt.Sprintf("%s#entry(%s)", name, m), Class: "table", PC: st.pc, Goal: env.boolean(e), Desc: "registered RPC method " + m + " has an entry in " + args[1], Func: name, Pos: token.Position{Filename: d.File, Line: d.Line}}
+		x.vc.addObl(o)
+		items = append(items, specialItem{x.vc, o})
+		rep.NObl++
+	}
+	rep.Dropped = append(rep.Dropped, fmt.Sprintf("%d registered methods enumerated from go/types", len(methods)))
+	delete(p.tmpInit, x)
+	delete(p.tmpGlobals, x)
+	return
+}
+
+func (p *Program) codecObligations(d *Directive) ([]specialItem, *FuncReport) {
+	return nil, &FuncReport{Name: "codec", Undecided: "not implemented"}
 }
